@@ -133,7 +133,7 @@ impl Divan {
         // When run under `cargo-nextest`, it provides `--list --format terse`.
         // We don't currently accept this action under any other circumstances.
         if action.is_list_terse() {
-            self.run_tree_list(&tree, "");
+            self.run_tree_list(&tree, "", None);
             return;
         }
 
@@ -187,18 +187,29 @@ impl Divan {
     /// Emits the entries in `tree` for the purpose of `--list --format terse`.
     ///
     /// This only happens when running under `cargo-nextest` (`NEXTEST=1`).
-    fn run_tree_list(&self, tree: &[EntryTree], parent_path: &str) {
+    fn run_tree_list(
+        &self,
+        tree: &[EntryTree],
+        parent_path: &str,
+        parent_options: Option<&BenchOptions>,
+    ) {
         let mut full_path = String::with_capacity(parent_path.len());
 
         for child in tree {
-            let ignore = child
-                .bench_options()
-                .and_then(|options| options.ignore)
-                .unwrap_or_default();
-
-            if self.should_ignore(ignore) {
-                continue;
-            }
+            // Overwrite `parent_options` with `child_options` if applicable,
+            // the same way `run_tree` does when running benchmarks.
+            let options: BenchOptions;
+            let options: Option<&BenchOptions> =
+                match (parent_options, child.bench_options()) {
+                    (None, None) => None,
+                    (Some(options), None) | (None, Some(options)) => {
+                        Some(options)
+                    }
+                    (Some(parent_options), Some(child_options)) => {
+                        options = child_options.overwrite(parent_options);
+                        Some(&options)
+                    }
+                };
 
             full_path.clear();
 
@@ -210,16 +221,30 @@ impl Divan {
             full_path.push_str(child.display_name());
 
             match child {
-                EntryTree::Leaf { args: None, .. } => {
-                    println!("{full_path}: benchmark")
-                }
-                EntryTree::Leaf { args: Some(args), .. } => {
-                    for arg in args {
-                        println!("{full_path}::{arg}: benchmark")
+                EntryTree::Leaf { args, .. } => {
+                    // Whether a benchmark is ignored is decided per benchmark
+                    // with inherited options, like in `run_bench_entry`.
+                    let ignore = self
+                        .bench_options
+                        .ignore
+                        .or(options.and_then(|options| options.ignore))
+                        .unwrap_or_default();
+
+                    if self.should_ignore(ignore) {
+                        continue;
+                    }
+
+                    match args {
+                        None => println!("{full_path}: benchmark"),
+                        Some(args) => {
+                            for arg in args {
+                                println!("{full_path}::{arg}: benchmark")
+                            }
+                        }
                     }
                 }
                 EntryTree::Parent { children, .. } => {
-                    self.run_tree_list(children, &full_path)
+                    self.run_tree_list(children, &full_path, options)
                 }
             }
         }
